@@ -62,6 +62,15 @@ BUILT = {
          "trusted: Poly.tla (exact arithmetic over Q with 32-bit overflow guard: guarded cases are skipped and counted), "
          "PyNum/Eval, TLC; the A-layer transcription of the rewrite algorithms is not part of this check",
          "TLC-generated inputs, recorded rewrite results, TLC-judged by rational-function normal form and shape predicates"),
+ "C15": ("TLC enumerates (expression, target set) pairs and all small integer 2x2 affine systems (entries in a small box, "
+         "unknowns and parameters on both sides), checks on the model that Cramer's solution of every regular "
+         "generated system satisfies it (oracle sanity), and judges what CoefficientCollector and "
+         "solve_affine_equations_for really returned: affineness and reconstruction decided exactly by rational-"
+         "function normal forms, coefficients free of targets, raises on non-affine input, returned assignments "
+         "satisfy every equation identically, singular systems refused.",
+         "trusted: Poly.tla, TLC; a refusal of a syntactically non-obvious affine input and a solver refusal of a "
+         "solvable system are tabulated, not judged; 3x3 systems are not generated",
+         "TLC-generated expressions/systems, recorded results, TLC-judged by exact normal forms and determinants"),
 }
 
 REASON_NOT_YET = "check not built yet in this round (planned, see DESIGN.md section 13)"
